@@ -102,7 +102,24 @@ pub fn judge(_cfg: &Config, case: &Case, l: &mut Local, stratum: &str) {
                 match guard(|| crate::plug::publish_json(&j)) {
                     Ok(Ok(p)) => {
                         if p != direct {
-                            v(l, &ty, "publish-differs-from-serialise", "-", format!("{ty}: publishing the message's JSON gives a different text than to_mt_message"), case);
+                            // envelope differences are keyed by their cause (which block, how), not by message type
+                            let cause = match (tok::split_blocks(&direct), tok::split_blocks(&p)) {
+                                (Some(a), Some(b)) => {
+                                    let ids = |x: &Vec<(String, String)>| x.iter().map(|y| y.0.clone()).collect::<Vec<_>>();
+                                    if ids(&a) != ids(&b) {
+                                        let gone: Vec<String> = a.iter().filter(|y| !b.iter().any(|z| z.0 == y.0)).map(|y| format!("block-{}-{}", y.0, if y.1.trim().is_empty() { "present-but-empty-dropped" } else { "dropped" })).collect();
+                                        let come: Vec<String> = b.iter().filter(|y| !a.iter().any(|z| z.0 == y.0)).map(|y| format!("block-{}-invented", y.0)).collect();
+                                        Some([gone, come].concat().join("+"))
+                                    } else {
+                                        a.iter().zip(&b).find(|(x, y)| x.1 != y.1).map(|(x, _)| x.0.clone()).filter(|id| id != "4").map(|id| format!("block-{id}-differs"))
+                                    }
+                                }
+                                _ => None,
+                            };
+                            match cause {
+                                Some(c) => v(l, "envelope", "publish-differs-from-serialise", &c, format!("{ty}: publishing the message's JSON gives a different envelope than to_mt_message ({c})"), case),
+                                None => v(l, &ty, "publish-differs-from-serialise", "-", format!("{ty}: publishing the message's JSON gives a different text than to_mt_message"), case),
+                            }
                         }
                     }
                     Ok(Err(e)) => v(l, &ty, "publish-rejects-own-json", "-", format!("{ty}: publish fails on the message's own JSON: {}", e.chars().take(100).collect::<String>()), case),
@@ -117,6 +134,33 @@ pub fn judge(_cfg: &Config, case: &Case, l: &mut Local, stratum: &str) {
                 }
                 Ok(Err(_)) => v(l, &ty, "parse-plugin-rejects", "-", format!("{ty}: parse plugin rejects a text the typed parser accepts"), case),
                 Err(_) => {}
+            }
+            // the envelope part of the JSON (everything beside `fields`): no empty placeholder either, as long as
+            // the text carries no tag with an empty value (":}" as in {TNG:} or {108:})
+            if !text.contains(":}")
+                && let Value::Object(top) = &j
+            {
+                for (k, hv) in top {
+                    if k != "fields" {
+                        let mut found: Vec<String> = Vec::new();
+                        walk(hv, &mut |path, val| {
+                            // the header object itself may be empty: that is the image of a block that is present
+                            // with nothing in it (or nothing the library reads, a C10 matter)
+                            let empty = match val {
+                                Value::String(s) => s.is_empty(),
+                                Value::Object(m) => m.is_empty() && !path.is_empty(),
+                                Value::Array(a) => a.is_empty() && !path.is_empty(),
+                                _ => false,
+                            };
+                            if empty {
+                                found.push(path.to_string());
+                            }
+                        });
+                        for pth in found {
+                            v(l, "envelope", "empty-placeholder", &format!("{k}{pth}"), format!("{ty}: the JSON of {k} has an empty placeholder at {pth:?} although no empty value was written"), case);
+                        }
+                    }
+                }
             }
             if let Some(fj) = j.get("fields") {
                 if !*no_scan {
@@ -250,6 +294,40 @@ pub fn run(cfg: &Config) -> i32 {
                     letter_msgs.push((lay.mt.to_string(), format!("{pre}\n{}\n{post}", tok::render(&fs, false, false))));
                 }
             }
+        }
+    }
+    // envelope values: every block-3 tag alone at its boundary lengths, every valued block-5 tag alone, under an
+    // input and an output header
+    {
+        let bodies: Vec<(String, String)> = envelope.iter().filter_map(|(mt, (pre, post))| c.entries.iter().find(|e| e.mt == *mt).and_then(|e| corpus::block4_of(&e.text)).map(|b| { let _ = (pre, post); (mt.to_string(), tok::render(&tok::tokenize(&b).fields, false, false)) })).collect();
+        let mut k = 0usize;
+        for t in super::c10::B3_TAGS {
+            for (_, val) in super::c10::b3_boundary_values(t) {
+                for output in [false, true] {
+                    k += 1;
+                    if bodies.is_empty() {
+                        continue;
+                    }
+                    let (mt, b4) = &bodies[k % bodies.len()];
+                    let b2 = if output { super::c10::block2_output(mt, k, 47) } else { super::c10::block2_input(mt, k, 17) };
+                    letter_msgs.push((mt.clone(), format!("{{1:{}}}{{2:{b2}}}{{3:{{{t}:{val}}}}}{{4:\n{b4}\n-}}{{5:{{CHK:123456789ABC}}}}", super::c10::block1(k, false))));
+                }
+            }
+        }
+        for sparse in ["{3:}", "{5:}"] {
+            if let Some((mt, b4)) = bodies.first() {
+                let (b3, b5) = if sparse.starts_with("{3") { (sparse, "") } else { ("", sparse) };
+                letter_msgs.push((mt.clone(), format!("{{1:{}}}{{2:{}}}{b3}{{4:\n{b4}\n-}}{b5}", super::c10::block1(1, false), super::c10::block2_input(mt, 1, 17))));
+            }
+        }
+        for t in super::c10::B5_TAGS {
+            let val = super::c10::b5_value(t, 3);
+            if val.is_empty() || bodies.is_empty() {
+                continue;
+            }
+            k += 1;
+            let (mt, b4) = &bodies[k % bodies.len()];
+            letter_msgs.push((mt.clone(), format!("{{1:{}}}{{2:{}}}{{4:\n{b4}\n-}}{{5:{{{t}:{val}}}}}", super::c10::block1(k, false), super::c10::block2_input(mt, k, 17))));
         }
     }
     let nletters = letter_msgs.len() as u64;
